@@ -9,9 +9,11 @@ package main
 
 import (
 	"fmt"
+	"strings"
 	"sync"
 	"time"
 
+	ristretto "github.com/dgraph-io/ristretto/v2"
 	"verif/harness/lab"
 )
 
@@ -64,6 +66,10 @@ func c07Scripts(rng *lab.RNG) []c07Script {
 	add("del-reinsert", set(0, 100), del(30), set(50+j(), 400), c07Obs(150, 250, 300), c07Obs(480+j(), 1500))
 	add("same-ttl-refresh", set(0, 150), set(100+j(), 150), c07Obs(180, 200, 220), c07Obs(290+j(), 600))
 	add("three-rewrites", set(0, 50), set(20, 300), set(100+j(), 40), set(120, 0), c07Obs(200, 400, 1500), set(1600, 30), c07Obs(1610, 1615), c07Obs(1660+j(), 2800))
+	// an insert applied so late that the sweep frontier has passed its bucket, then re-written without / with a later
+	// TTL: the re-written item must not be hidden by whatever the index still holds for the old expiration
+	out = append(out, c07Script{Name: "late-apply-then-none", Late: 2300, Steps: append(append(set(0, 50), set(2400, 0)...), c07Obs(2450, 3500, 4600, 5700)...)})
+	out = append(out, c07Script{Name: "late-apply-then-later", Late: 2300, Steps: append(append(set(0, 50), set(2400, 3000)...), append(c07Obs(2450, 3500, 4600), c07Obs(5500+j(), 6600)...)...)})
 	for _, hold := range []int{80, 400, 1300} {
 		out = append(out, c07Script{Name: fmt.Sprintf("late-apply-hold%d", hold), Late: hold, Steps: append(set(0, 50), c07Obs(hold+10, hold+20, hold+30)...)})
 		out = append(out, c07Script{Name: fmt.Sprintf("late-apply-alive-hold%d", hold), Late: hold, Steps: append(set(0, hold+800), append(c07Obs(hold+10, hold+20, hold+30), c07Obs(2*hold+900, 2*hold+1500)...)...)})
@@ -74,7 +80,8 @@ func c07Scripts(rng *lab.RNG) []c07Script {
 func runC07(c *Ctx) {
 	r := c.R
 	r.Rule = "scripted per-key histories (single ttl 1..400 ms, no ttl, negative ttl, ttl replaced by longer/shorter/none, delete+re-insert, refresh, insert applied late with the applier held past the expiry) with observations by Get/GetTTL/IterValues before, around and after the expiration and before/after the sweep; each observation is judged with sound wall-time brackets; distinct by (script, step, observer, region in {must-hit, must-miss, band}); non-trivial when the region is must-hit or must-miss"
-	rounds := c.N(6, 60)
+	ristretto.VerifSetBucketSeconds(1) // sweeps every 0.5 s, 1-second buckets: expired entries meet the sweep within the scripts
+	rounds := c.N(4, 40)
 	for round := 0; round < rounds; round++ {
 		rng := c.rng(700 + uint64(round))
 		var scripts []c07Script
@@ -82,7 +89,7 @@ func runC07(c *Ctx) {
 			// copies with a different time scale (ttl and offsets scaled together) and fresh jitter
 			scale := []float64{1, 0.5, 0.75, 1.5, 2, 1.25}[cp%6]
 			for _, sc := range c07Scripts(rng) {
-				if scale != 1 {
+				if scale != 1 && !strings.HasPrefix(sc.Name, "late-apply-then") {
 					sc.Name = fmt.Sprintf("%s@x%.2f", sc.Name, scale)
 					steps := append([]c07Step(nil), sc.Steps...)
 					for i := range steps {
@@ -167,6 +174,16 @@ func c07Run(c *Ctx, s c07Script, stream uint64) {
 			if s.Late > 0 && first && ttl >= 0 {
 				gate = lab.NewGate(l)
 				defer gate.Open()
+				if s.Late >= 2000 {
+					// the applier is held on an item of the control key, so the scripted insert waits in the write
+					// buffer: when the applier is released, a sweep may run before the insert is applied
+					ctl = cl.NextVal(1)
+					cl.Set(1, ctl, 1, 0)
+					if err := gate.AwaitHeld(); err != nil {
+						r.Inconc(1)
+						return
+					}
+				}
 			}
 			w.t0 = time.Now()
 			ok := cl.Set(0, v, 1, ttl)
